@@ -28,6 +28,9 @@ pub const IO_KINDS: &[io::ErrorKind] = &[
     io::ErrorKind::TimedOut,
     io::ErrorKind::Other,
     io::ErrorKind::ConnectionAborted,
+    // appended later (the indices are part of recorded op lines): the retryable kinds of a real socket
+    io::ErrorKind::Interrupted,
+    io::ErrorKind::WouldBlock,
 ];
 
 #[derive(Clone)]
